@@ -139,6 +139,11 @@ def run(ctx):
                           timeout=3600, deadlock=False, name="FileInput/residual sync=%s" % sync)
         ctx.tlc_expect_ok("FileInput", "FileInput_base.cfg", overrides={"D_SeekMinSaved": "FALSE", "NLines": n, "SyncMode": sync},
                           timeout=3600, deadlock=False, name="FileInput/repaired-rule sync=%s" % sync)
+    # files reached through a symbolic link: rotation behind the link is noticed by maintenance only
+    ctx.tlc_expect_ok("SymlinkFollow", "SymlinkFollow_ok.cfg", timeout=900, deadlock=False, name="SymlinkFollow/faithful")
+    sl = ctx.tlc("SymlinkFollow", "SymlinkFollow_mut.cfg", timeout=900, deadlock=False, name="SymlinkFollow/mutant (link taken for a regular file)")
+    if sl.ok or sl.violated != "FollowsTheLink":
+        raise vlib.Infra("spec mutant M_LinksReresolved is not rejected by FollowsTheLink (violated=%s)" % sl.violated)
     # graceful stop: the input writes its offsets once more; without that write an asynchronous save interval of commits is missing
     ms = ctx.tlc("FileInput", "FileInput_base.cfg", overrides={"ResidualOnly": "TRUE", "SyncMode": "FALSE", "M_StopSaves": "FALSE"}, timeout=1800,
                  deadlock=False, name="FileInput/mutant-M_StopSaves")
